@@ -124,7 +124,7 @@ TrainStacks == UNION {{v \in [1..R -> TrainRows] :
                          LET ks == [r \in 1..R |-> RowKey(v[r])] IN
                          /\ \A r \in 1..R : \A s \in 1..R : r < s => ks[r] <= ks[s]
                          /\ LET th == IF R = 1 THEN Thin1 ELSE ThinT IN
-                            (th = 1 \/ SumS([r \in 1..R |-> ks[r] * (2 * r + 1)]) % th = 0)}
+                            (th = 1 \/ SumS([r \in 1..R |-> (ks[r] \div ThinR) * (2 * r + 1)]) % th = 0)}
                       : R \in RSet}
 
 Common == /\ objs = [o \in 1..MaxObj |-> IF o = 1 THEN Source ELSE Null] /\ hist = <<>>
